@@ -5,7 +5,6 @@ import (
 	"encoding/gob"
 	"fmt"
 	"time"
-	"unsafe"
 
 	"github.com/valyala/fastjson"
 )
@@ -245,11 +244,8 @@ func ToTombstone(it Item) (*Tombstone, error) {
 		return i, nil
 	case Tombstone:
 		return &i, nil
-	case *Object:
-		return (*Tombstone)(unsafe.Pointer(i)), nil
-	case Object:
-		return (*Tombstone)(unsafe.Pointer(&i)), nil
 	default:
+		// NOTE: a plain Object is smaller than a Tombstone and must not be reinterpreted as one
 		return reflectItemToType[Tombstone](it)
 	}
 }
